@@ -324,6 +324,15 @@ XGridValid(p) == Len(p) >= 2 /\ \A i \in 1..(Len(p) - 1) : XLt(p[i], p[i + 1])
 FpGridNewOK(ev) ==
   \A k \in {"f", "d", "l"} : IF XGridValid(ev.pts) THEN ev[k] = "ok" ELSE Threw(ev, k)
 
+-----------------------------------------------------------------------------
+\* example solvers (C20): the numeric contracts were evaluated by the harness
+\* with the tolerances of DESIGN.md; every run must return normally
+ExEvOK(ev) ==
+  /\ ev.out = "ok"
+  /\ CASE ev.op = "ExDiffusion" -> ev.attain = 1 /\ ev.scale_inv = 1 /\ ev.line = 1 /\ ev.support_whole = 1
+       [] ev.op = "ExPotential" -> ev.count = 10 /\ ev.shift_ok = 1 /\ ev.interp_ok = 1 /\ ev.sorted = 1
+       [] OTHER -> ev.ok = 1
+
 SupOps == {"GridNew", "GridFind", "GridAt", "SupNew", "SupRead", "SupIdx", "SupBin", "SupTri"}
 SplOps == {"SplNew", "SplEval", "SplUn", "SplBin", "SplLin"}
 EventOK(ev) == /\ Sane(ev)
@@ -334,5 +343,6 @@ EventOK(ev) == /\ Sane(ev)
                     [] ev.op = "Interp" -> InterpEvOK(ev)
                     [] ev.op \in {"FpGen", "FpEval", "FpBin", "FpApply", "FpBF", "FpInt"} -> FpEvOK(ev)
                     [] ev.op = "FpGridNew" -> FpGridNewOK(ev)
+                    [] ev.op \in {"ExDiffusion", "ExPotential", "ExOscillator", "ExHydrogen"} -> ExEvOK(ev)
                     [] OTHER -> FALSE
 =============================================================================
